@@ -10,6 +10,7 @@ package main
 
 import (
 	"bytes"
+	"crypto/tls"
 	"encoding/json"
 	"errors"
 	"fmt"
@@ -59,6 +60,7 @@ type Scenario struct {
 	Expect  bool   `json:"expect,omitempty"`  // kind upload: request 1 carries Expect: 100-continue
 	Tail    string `json:"tail,omitempty"`    // kind keepopen: bytes the origin sends right after its complete response while keeping the connection open
 	IdleMs  int    `json:"idle_ms,omitempty"` // kind client: proxy.SetTimeout; the client sends the stream and then stays silent without closing
+	DialRes string `json:"dialres,omitempty"` // what a failing dial returns NEXT TO its error: "" untyped nil | typed_nil_tls | typed_nil_tcp | closed_conn
 	Mod     string `json:"mod,omitempty"`     // stock modifier installed as request+response modifier: "" | har | martianlog | marbl
 	M2      string `json:"m2,omitempty"`      // method of the second request ("" = GET | POST | HEAD)
 	Pipe    bool   `json:"pipe,omitempty"`    // the second request is already sent (same write) when the fault happens
@@ -514,6 +516,23 @@ func auditScenarios(tier string, add func(Scenario)) {
 			add(Scenario{Kind: "dial", Dial: de, Method: m, Proto: "1.1close", Script: "cl", K: -1})
 		}
 	}
+	// A4b. what a failing dial function returns next to its error: a typed-nil *tls.Conn / *net.TCPConn (the
+	// usual result of `return tls.Dial(...)`), or a connection it has already closed
+	for _, dr := range []string{"typed_nil_tls", "typed_nil_tcp", "closed_conn"} {
+		for _, de := range dialErrorClasses {
+			if !thorough && de != "refused" && de != "timeout" && de != "eof" {
+				continue
+			}
+			for _, m := range []string{"GET", "POST", "CONNECT"} {
+				if !thorough && m == "POST" {
+					continue
+				}
+				for _, pipe := range []bool{false, true} {
+					add(Scenario{Kind: "dial", Dial: de, DialRes: dr, Method: m, Proto: "1.1", Script: "cl", K: -1, Pipe: pipe})
+				}
+			}
+		}
+	}
 	// A5. CONNECT through a downstream proxy (SetDownstreamProxy): the downstream proxy's answer to the
 	// CONNECT is cut at every offset
 	for _, ds := range downstreamScripts {
@@ -869,6 +888,21 @@ func runScenario(s *Scenario, kind string, quiet time.Duration) *runOut {
 			return h1harness.Refused(addr)
 		}
 		return nil
+	}, FailedDialConn: func(n int, addr string) net.Conn {
+		switch s.DialRes {
+		case "typed_nil_tls":
+			var c *tls.Conn
+			return c
+		case "typed_nil_tcp":
+			var c *net.TCPConn
+			return c
+		case "closed_conn":
+			p := h1harness.NewPipe(0, "failed-dial", "nowhere")
+			p.A.Close()
+			p.B.Close()
+			return p.A
+		}
+		return nil
 	}}, origin)
 	if err != nil {
 		out.findings = append(out.findings, finding{"harness", "env_failed", err.Error()})
@@ -894,6 +928,9 @@ func runScenario(s *Scenario, kind string, quiet time.Duration) *runOut {
 	switch s.Kind {
 	case "dial":
 		class = "dial_" + s.Dial
+		if s.DialRes != "" {
+			class += "+" + s.DialRes
+		}
 	case "truncate":
 		headIncomplete = s.K < sc.headLen
 		switch {
@@ -1536,6 +1573,12 @@ func main() {
 		one, _, _ := scenarios(tier, func(id int) bool { return id == idx })
 		s := one[idx]
 		cls := "origin_fault"
+		if s.Kind == "dial" {
+			cls = "dial_failure"
+			if s.DialRes != "" {
+				cls += "+" + s.DialRes
+			}
+		}
 		if s.Kind == "client" {
 			cls = "client_stream"
 		}
@@ -1566,7 +1609,7 @@ func main() {
 	rep.Coverage["distinct_nontrivial"] = rep.Counter("nontrivial")
 	rep.Coverage["distinct_outcomes"] = len(agg.Keys["outcomes"])
 	rep.Coverage["exhaustive"] = rep.Incomplete == ""
-	rep.Coverage["rule"] = "modifier configurations {none, har.NewLogger(), martianlog.NewLogger(), marbl.NewModifier} as request+response modifier for the truncation family; truncate: response script x client protocol x {fresh, reused upstream connection} x {GET, POST} x every offset k in 0..len(script) (origin writes k bytes, closes); dial: first dial fails with {refused, timeout (net.Error), io.EOF, io.ErrClosedPipe, io.ErrUnexpectedEOF, generic error} on the plain-HTTP path (GET/POST, the transport dials) and on the CONNECT path (the proxy's connect() dials), or is accepted-then-closed, x second request afterwards / already pipelined; garbage: 20 non-HTTP/malformed origin answers and 60 answers with a valid status line followed by a header line carrying one of {NUL, SOH, BEL, BS, ESC, DEL, 0x80, 0xff, bare CR, TAB} at the start/middle/end of its name or value, x every prefix (oversized header: 3 offsets); client: 35 client byte streams x every prefix (3 oversized ones: listed offsets) and every single-byte corruption (replacement set) of 3 valid requests; mitm: proxy with SetMITM, 23 CONNECT request-line/Host shapes x 9 continuations after the 200 (ClientHello with SNI / without SNI / TLS 1.2 without SNI, plaintext request, two kinds of garbage, a lone 0x16, close, close without reading) and a no-SNI ClientHello cut at every offset, each followed by a marker request on a fresh connection; every other scenario continues with a well-formed request for a marker response on the same client connection. Non-trivial: the fault happens after at least one byte (k > 0), or is a dial fault or a corruption."
+	rep.Coverage["rule"] = "modifier configurations {none, har.NewLogger(), martianlog.NewLogger(), marbl.NewModifier} as request+response modifier for the truncation family; truncate: response script x client protocol x {fresh, reused upstream connection} x {GET, POST} x every offset k in 0..len(script) (origin writes k bytes, closes); dial: first dial fails with {refused, timeout (net.Error), io.EOF, io.ErrClosedPipe, io.ErrUnexpectedEOF, generic error} on the plain-HTTP path (GET/POST, the transport dials) and on the CONNECT path (the proxy's connect() dials), or is accepted-then-closed, x second request afterwards / already pipelined; the failing dial returns next to its error {untyped nil, typed-nil *tls.Conn, typed-nil *net.TCPConn, an already closed connection}; garbage: 20 non-HTTP/malformed origin answers and 60 answers with a valid status line followed by a header line carrying one of {NUL, SOH, BEL, BS, ESC, DEL, 0x80, 0xff, bare CR, TAB} at the start/middle/end of its name or value, x every prefix (oversized header: 3 offsets); client: 35 client byte streams x every prefix (3 oversized ones: listed offsets) and every single-byte corruption (replacement set) of 3 valid requests; mitm: proxy with SetMITM, 23 CONNECT request-line/Host shapes x 9 continuations after the 200 (ClientHello with SNI / without SNI / TLS 1.2 without SNI, plaintext request, two kinds of garbage, a lone 0x16, close, close without reading) and a no-SNI ClientHello cut at every offset, each followed by a marker request on a fresh connection; every other scenario continues with a well-formed request for a marker response on the same client connection. Non-trivial: the fault happens after at least one byte (k > 0), or is a dial fault or a corruption."
 	rep.Coverage["bounds"] = fmt.Sprintf("tier %s: %d scenarios %v; scripts %d; one client connection (+1 fresh probe connection for client streams); loopback-TCP re-run of every 9th (quick) / 197th (thorough) scenario", tier, total, fams, len(scripts(tier)))
 	rep.Assumptions = []string{
 		"an origin that stalls without closing is not modelled (would need the proxy's 5-minute timeout)",
